@@ -543,3 +543,21 @@ Proof.
   intros Hr. unfold fixed_fill_buf. destruct (N.eqb_spec (f_remaining r) 0) as [E|E]; [contradiction|].
   destruct (bbuf (fill_buf (f_src r))); reflexivity.
 Qed.
+
+(* (fix F38) for a non-empty caller buffer FixedReader::read is what it was before the empty-buffer guard *)
+Lemma fixed_read_pos k r : 0 < k ->
+  fixed_read k r =
+  if N.eqb (f_remaining r) 0 then ROk [] r
+  else
+    let '(out, s') := buf_read (N.min (f_remaining r) k) (f_src r) in
+    match out with
+    | [] => RErr EUnexpectedEof {| f_src := s'; f_remaining := f_remaining r |}
+    | _ => ROk out {| f_src := s'; f_remaining := (f_remaining r - lenN out)%N |}
+    end.
+Proof.
+  intros Hk. unfold fixed_read. destruct (N.eqb_spec k 0) as [E|E]; [lia|].
+  rewrite orb_false_r. reflexivity.
+Qed.
+
+Lemma fixed_read_0 r : fixed_read 0 r = ROk [] r.
+Proof. unfold fixed_read. rewrite N.eqb_refl, orb_true_r. reflexivity. Qed.
